@@ -102,6 +102,6 @@ int main(int argc, char **argv) {
   sp.build = build;
   sp.run = mode == "c02" ? run_c02 : run_c01;
   sp.on_death = [](const Case &, const CaseResult &cr) { return "abnormal-end:" + std::string(cr.exitcode == 42 ? "deadlock" : cr.exitcode == 77 ? "asan" : cr.timeout ? "hang" : "crash") + "|operation did not return normally: " + describe_death(cr); };
-  sp.alarm_s = a.num("prod", 0) ? 600 : 60;
+  sp.alarm_s = a.num("prod", 0) ? 600 : 30;
   return main_loop(argc, argv, sp);
 }
